@@ -732,6 +732,12 @@ func (c *c10Ctx) session(caseID string, rng *rand.Rand) int64 {
 	rej("nts.ProcessResponse", "response of another session", func(st *string) c10Res { return client(t.resp, st) })
 	rej("nts.ProcessResponse", "request reflected as a response", func(st *string) c10Res { return client(s.req, st) })
 	rej("nts.ProcessRequest", "response presented as a request", func(st *string) c10Res { return server(s.resp, st) })
+	for _, extra := range []int{1, 4, 32} {
+		// a response, authenticated under S2C, whose identifier is longer than the outstanding one and begins with it
+		longID := append(append([]byte{}, s.reqID...), c10Rand(rng, extra)...)
+		respLong := c10BuildResponse(rng, s, s.s2c, longID)
+		rej("nts.ProcessResponse", "response id begins with the outstanding id and is longer", func(st *string) c10Res { return client(respLong, st) })
+	}
 	if len(s.reqID) > 0 {
 		short := s.reqID[:len(s.reqID)-1]
 		rej("nts.ProcessResponse", "outstanding id is a prefix of the response id", func(st *string) c10Res { return c10Client(s.resp, s.s2c, short, st) })
@@ -822,6 +828,23 @@ func (c *c10Ctx) cookieCase(caseID string, rng *rand.Rand) int64 {
 		r.Violation("ntske.EncryptedServerCookie.Decrypt|wrong-value:opened cookie differs from the sealed (algo,S2C,C2S)|cookie", caseID, w)
 	}
 	r.Class("nts:cookie-opened-exact")
+	// session keys of other lengths (other AEAD algorithms export 48- or 64-byte keys; the two need
+	// not be of one length for the cookie format): the cookie yields exactly what was sealed
+	{
+		lens := []int{16, 32, 48, 64}
+		ks, kc := c10Rand(rng, lens[rng.IntN(4)]), c10Rand(rng, lens[rng.IntN(4)])
+		ck := c10SealCookie(serverKey, keyID, ks, kc)
+		n++
+		res2 := c10Guard(func(st *string) c10Res { return open(ck, st) })
+		w2 := map[string]any{"cookie": ev.Hex(ck), "server_key": ev.Hex(serverKey), "key_id": keyID, "s2c": ev.Hex(ks), "c2s": ev.Hex(kc)}
+		if c.expectAccept("ntske.EncryptedServerCookie.Decrypt", "cookie with session keys of other lengths", caseID, res2, w2) {
+			if !bytes.Equal(res2.cookie.S2C, ks) || !bytes.Equal(res2.cookie.C2S, kc) {
+				r.Violation("ntske.EncryptedServerCookie.Decrypt|wrong-value:opened cookie differs from the sealed (algo,S2C,C2S)|cookie with session keys of other lengths", caseID, w2)
+			} else {
+				r.Class(fmt.Sprintf("nts:cookie-opened-exact(key lengths equal=%v)", len(ks) == len(kc)))
+			}
+		}
+	}
 	// the opened keys belong to this cookie for as long as the caller holds them: opening other
 	// cookies afterwards (as concurrent listeners do) must not change them
 	{
